@@ -24,31 +24,40 @@ LEVEL_TEXT = ("Lean 4 theorems about the cancellation slice of the walker / pool
               "immediately after the cancellation and the remaining events are bounded; return through the cancellation implies non-zero exit; "
               "deadlock freedom with cancellation). Partial by nature: signal delivery, child-process trees and latency are runtime behaviour, "
               "sampled by real SIGINT/SIGTERM runs of the CLI at varied times with a follow-up build.")
-LEVEL_NOTE = ("Only the target shells are required to terminate (grandchildren of `sh -c` are not killed by CommandContext); latency bound 5 s = "
+LEVEL_NOTE = ("'Starts no further target' is proved for command starts; callbacks may still be entered and cache hits restored until grog exits. "
+              "exit_nonzero_all_phases has one exception, stated in the theorem: a `grog run` binary that was not killed and exited 0 by itself. "
+              "Only the target shells are required to terminate (grandchildren of `sh -c` are not killed by CommandContext); latency bound 5 s = "
               "1 s WaitDelay + margin; the next-build clause is checked at the CLI only (its proof is the composition of C10, C07 and C01, owned by "
               "other groups).")
 TECHNIQUE = "Lean 4 proofs about the cancellation logic of an executable LTS + trace inclusion with external cancel + signal runs of the real CLI"
 PROP_MODULES = ["GrogModel.Props.C18", "GrogModel.Props.ComposeStores"]
 OBLIGATIONS = [
+    # invariants / inductive statements
+    "Grog.C18.exit_nonzero",
+    "Grog.C18.return_inevitable",
+    "Grog.C18.return_stays_enabled",
+    "Grog.C18.interrupted_walk_finishes",
+    "Grog.C18.aborted_stays_aborted",
+    "Grog.C18.walk_returns",
+    "Grog.C18.events_after_cancel_bounded",
+    "Grog.C18.exit_nonzero_all_phases",
+    "Grog.C18.silent_success_witness_old",
+    "Grog.Compose.next_build_ok",
+    # one-step unfoldings of a guard / case analyses of the table Pool.execTail (no weight on their own)
     "Grog.C18.interrupt_any_time",
     "Grog.C18.no_start_after_cancel",
     "Grog.C18.pool_ctx_stays_cancelled",
     "Grog.C18.interrupted_not_cached",
-    "Grog.C18.aborted_stays_aborted",
-    "Grog.C18.walk_returns",
-    "Grog.C18.events_after_cancel_bounded",
     "Grog.C18.return_cancels_all",
-    "Grog.C18.exit_nonzero",
-    "Grog.C18.interrupted_walk_finishes",
-    "Grog.C18.silent_success_witness_old",
-    "Grog.C18.exit_nonzero_all_phases",
     "Grog.C18.run_binary_not_started_after_cancel",
-    "Grog.Compose.next_build_ok",
 ]
 ASSUMPTIONS = [
-    "exec.CommandContext kills the target shell on cancellation and does not start one under a cancelled context (Go runtime, trusted)",
-    "the signal handler cancels the root context (console/cmd_setup.go), sampled by the CLI runs",
-    "next-build clause: checked on the real CLI only; the proof composes C10/C07/C01 of other groups",
+    "exec.CommandContext kills the target shell on cancellation and does not start one under a cancelled context (Go runtime, trusted; "
+    "no Lean model of process termination - the clause 'terminates the running shells' is checked on the CLI only)",
+    "the signal handler cancels the root context (console/cmd_setup.go), sampled by the CLI runs; a second signal is swallowed by the "
+    "handler and a TTY Ctrl-C cancels only the wrapped context (not exercised: no TTY in the scenarios)",
+    "inevitability counts events, not seconds; entered callbacks return (C04)",
+    "next-build clause: checked on the real CLI; the theorem composes C10/C07/C01 of other groups",
 ]
 
 
